@@ -81,8 +81,8 @@ def run(ctx):
                 pairs.append((st, sr))
     rng.shuffle(pairs)
     pairs = pairs[:4 if quick else 16]
-    c = fa.consts(0.0)
-    P = [c.CN0, c.kN0, c.deltaRN0, c.rp, c.CTi, c.kTi, c.deltaRTi]
+    from harness import physics
+    c = physics.general_constants(iotaVal=0.0, R0=1.0)
     ncmp, nskip, worst = 0, 0, 0.0
     queries, pending = [], []
     for pi_, (st, sr) in enumerate(pairs):
@@ -174,7 +174,7 @@ def run(ctx):
                             queries.append({"id": qid, "r": [xr[j].numerator + xr[j].denominator, xr[j].denominator],
                                             "g": [gp[i].numerator, gp[i].denominator], "m": [m.numerator, m.denominator],
                                             "rmin": [int(rmin), 1], "rmax": [int(rmax), 1]})
-                            pending.append((qid, st, sr, C, xt[i], 1 + xr[j], gp[i], m, float(f[i, j]), float(f0[i, j]), expl, nul, vval, P, dict(m0, dt=dt, node=[i, j]), rmin, rmax))
+                            pending.append((qid, st, sr, C, xt[i], 1 + xr[j], gp[i], m, float(f[i, j]), float(f0[i, j]), expl, nul, vval, None, dict(m0, dt=dt, node=[i, j]), rmin, rmax))
     # TLC evaluates the Heun step and the rule for every node
     res = ctx.tlc("C12Feet", "INIT Init\nNEXT Next\nINVARIANT IHeun\nINVARIANT Dump\nCHECK_DEADLOCK FALSE\n", what="Heun feet of %d nodes" % len(queries),
                   files={"queries.json": json.dumps(queries)}, env={"QUERY_FILE": "queries.json"}, workers=16)
@@ -212,9 +212,9 @@ def run(ctx):
         elif rule == "zero":
             want = 0.0
         elif rule == "equilibrium-at-rMin":
-            want = init.f_eq(float(rmin), vval, *P)
+            want = physics.f_eq(float(rmin), vval, c)
         else:
-            want = init.f_eq(float(foot), vval, *P)
+            want = physics.f_eq(float(foot), vval, c)
         err = abs(got - want)
         ncmp += 1
         worst = max(worst, err) if rule == "interpolant" else worst
